@@ -140,7 +140,7 @@ def make_yfuture(wait_code):
 COMPOSITE_LIKE = COMPOSITE_OPS + ('as_completed',)     # operations that may acquire and release any worker of their pool
 
 
-def install_as_completed_probes(courier_worker, courier_utils, orchestrate, pools, workers, alog, kinds):
+def install_as_completed_probes(courier_worker, courier_utils, orchestrate, pools, workers, alog, kinds, released_busy=None):
   """Family 'scheda' (round 6): orchestrate.as_completed under the scheduler as an OBSERVED SCRIPT of primitive operations.
   Every pool-level call made by the body of as_completed itself (`pool.workers`, `next_idle_worker`, `release_all`,
   `acquired_workers`, `task.is_alive`, `worker.submit`) is logged with its arguments (set iteration orders, shuffles and
@@ -187,6 +187,11 @@ def install_as_completed_probes(courier_worker, courier_utils, orchestrate, pool
       probe(dict(op='next_idle', p=pidx[id(self)], ws=[widx[id(w)] for w in workers], acq=bool(maybe_acquire)))
     return saved['next_idle'](self, workers, maybe_acquire=maybe_acquire)
 
+  submitted = {}      # tid -> [(worker, task)] submitted by the as_completed of that thread
+
+  def owned(w, pool):  # harness-side read of the shim objects: no yield
+    return w._lock.owner is not None and w.__dict__.get('_wp') is pool  # pylint: disable=protected-access
+
   def m_release_all(self, workers=()):
     if from_ac():
       if isinstance(workers, tuple) and not workers:       # the `finally: worker_pool.release_all()`
@@ -194,6 +199,16 @@ def install_as_completed_probes(courier_worker, courier_utils, orchestrate, pool
       else:
         workers = list(workers)                            # (a set: the callee iterates it in this order)
         probe(dict(op='release_all', p=pidx[id(self)], ws=[widx[id(w)] for w in workers]))
+        # oracle probe (round 11): which workers running a not yet finished task of THIS as_completed does the mid-run release give away?
+        import concurrent.futures as cf
+        t = _CUR['sched'].current()
+        busy = [w for w, task in submitted.get(t.tid if t else -1, []) if task.state is not None and not cf.Future.done(task.state)]
+        before = [w for w in busy if owned(w, self)]
+        r = saved['release_all'](self, workers)
+        lost = sorted({widx[id(w)] for w in before if not owned(w, self)})
+        if lost and released_busy is not None:
+          released_busy.append(dict(p=pidx[id(self)], workers=lost, arg=[widx[id(w)] for w in workers]))
+        return r
     return saved['release_all'](self, workers)
 
   def g_is_alive(self):
@@ -207,6 +222,9 @@ def install_as_completed_probes(courier_worker, courier_utils, orchestrate, pool
       t = _CUR['sched'].current()
       lazy = task.args[0] if getattr(task, 'args', None) else None
       probe(dict(op='submit', p=cur_pool.get(t.tid if t else -1, 0), w=widx[id(self)], task=kinds.get(id(lazy), 'ok')))
+      r = saved['submit'](self, task)
+      submitted.setdefault(t.tid if t else -1, []).append((self, r))
+      return r
     return saved['submit'](self, task)
 
   def m_done(self):
@@ -321,6 +339,7 @@ def run_real(case, max_steps=4000):
   results = {}
   state = {}
   alog, kinds, undo_probes = {}, {}, None
+  released_busy = []
   saved_threading = courier_utils.threading
   saved_reg = courier_utils._worker_registry  # pylint: disable=protected-access
   had_prop = '_worker_pool' in courier_worker.Worker.__dict__
@@ -376,7 +395,7 @@ def run_real(case, max_steps=4000):
 
     if case.get('fam') == 'scheda':
       from ml_metrics._src.chainables import orchestrate
-      undo_probes = install_as_completed_probes(courier_worker, courier_utils, orchestrate, pools, workers, alog, kinds)
+      undo_probes = install_as_completed_probes(courier_worker, courier_utils, orchestrate, pools, workers, alog, kinds, released_busy)
 
     def safe_get(a):
       if reg._lock.owner is None:  # pylint: disable=protected-access
@@ -505,6 +524,7 @@ def run_real(case, max_steps=4000):
         outcome=outcome, err=err, excs=excs,
         choices=[t for t, _ in sched.choices],
         steps=steps, enabled=enabled, snaps=snaps, opinfo=opinfo, alog={str(k): v for k, v in alog.items()},
+        ac_released_busy=released_busy,
         results=[results.get(t, []) for t in range(len(case['threads']))],
         finished=[state.get(t) == 'finished' for t in range(len(case['threads']))],
         final=dict(locked=final['locked'], owners=final['owners'],
